@@ -497,7 +497,10 @@ func (t *Teamserver) Start() {
 		// check if the agent has any links
 		AgentsIDs := t.LinksOf(Agent)
 		for _, AgentID := range AgentsIDs {
-			Agent.Pivots.Links = append(Agent.Pivots.Links, t.AgentInstance(AgentID))
+			// a link row can name an agent that is not restored (inactive): there is no session to link
+			if LinkAgent := t.AgentInstance(AgentID); LinkAgent != nil {
+				Agent.Pivots.Links = append(Agent.Pivots.Links, LinkAgent)
+			}
 		}
 	}
 
